@@ -112,14 +112,14 @@ func buildTemplates(sites []extract.ErrSite) []*errTemplate {
 }
 
 type c20State struct {
-	c         *Ctx
-	templates []*errTemplate
-	findings  map[string]*c19Finding
-	errsSeen  int
-	byEntry   map[string]int
-	distinct  map[string]errRecord // distinct (msg, path, locs, ext) → record, for the model tie
-	unmatched map[string]int
-	crashes   map[string]int
+	c           *Ctx
+	templates   []*errTemplate
+	findings    map[string]*c19Finding
+	errsSeen    int
+	byEntry     map[string]int
+	distinct    map[string]errRecord // distinct (msg, path, locs, ext) → record, for the model tie
+	unmatched   map[string]int
+	crashes     map[string]int
 	crashSample map[string]string
 }
 
@@ -237,7 +237,8 @@ func jsonShapeViolations(js []byte) []string {
 
 type judgeCtx struct {
 	entry      string   // lex | parse-query | parse-schema | load | validate | vars
-	names      []string // names of the sources involved ("" = unnamed)
+	names      []string // names of the sources the input was read from ("" = unnamed)
+	otherNames []string // named sources an error may legitimately point into as well (the schema's, for validation)
 	limit      int      // token limit (parsers), -1 none
 	validation bool
 	input      string
@@ -300,7 +301,7 @@ func (s *c20State) judge(recs []errRecord, j judgeCtx) {
 		}
 		if named && j.entry != "vars" {
 			okFile := false
-			for _, n := range j.names {
+			for _, n := range append(append([]string(nil), j.names...), j.otherNames...) {
 				if n != "" && file == n {
 					okFile = true
 				}
@@ -309,7 +310,13 @@ func (s *c20State) judge(recs []errRecord, j judgeCtx) {
 				s.keep("spec", "error-without-file:"+j.entry, fmt.Sprintf("%s of the named source(s) %v %q: error %q at %s carries extensions %s", j.entry, j.names, clip(in, 120), r.msg, r.locs, r.ext), in, j.replay)
 			}
 		}
-		if !named && hasFile {
+		inOther := false
+		for _, n := range j.otherNames {
+			if n != "" && n == file {
+				inOther = true
+			}
+		}
+		if !named && hasFile && !inOther {
 			s.keep("spec", "unnamed-source-with-file:"+j.entry, fmt.Sprintf("%s of an unnamed source %q: error %q carries file %q", j.entry, clip(in, 120), r.msg, file), in, j.replay)
 		}
 		// JSON
@@ -640,7 +647,7 @@ func checkC20(c *Ctx) {
 		var ctxs []judgeCtx
 		add := func(sdl, doc, name string) {
 			reqs = append(reqs, "eval "+name+" "+impl.HexW([]byte(sdl))+" "+impl.HexW([]byte(doc)))
-			ctxs = append(ctxs, judgeCtx{entry: "validate", names: []string{strings.TrimPrefix(name, "-"), "s0", "prelude.graphql"}, limit: -1, validation: true, input: doc,
+			ctxs = append(ctxs, judgeCtx{entry: "validate", names: []string{strings.TrimPrefix(name, "-")}, otherNames: []string{"s0", "prelude.graphql"}, limit: -1, validation: true, input: doc,
 				replay: map[string]any{"schema": sdl}})
 		}
 		variants := gen.DocFaultVariants()
@@ -648,6 +655,9 @@ func checkC20(c *Ctx) {
 			r := c.R.Fork(uint64(12_000_000 + i))
 			sc := schemas[i%len(schemas)]
 			name := "query.graphql"
+			if i%5 == 4 {
+				name = "-" // gqlparser.LoadQuery's own way: an unnamed source
+			}
 			switch i % 3 {
 			case 0:
 				if f, ok := gen.InjectDocFaultVariant(r, sc, 1+r.Intn(8), variants[(i/3)%len(variants)]); ok {
@@ -797,7 +807,7 @@ func init() {
 		case "elex", "epq", "eps", "eval":
 			j.names = []string{strings.TrimPrefix(f[1], "-")}
 			if f[0] == "eval" {
-				j.names = append(j.names, "s0", "prelude.graphql")
+				j.otherNames = []string{"s0", "prelude.graphql"}
 			}
 		case "eload":
 			j.names = nil
